@@ -121,6 +121,10 @@ def check(run, driver):
         run.case("scripted", [n, L, T, method, info, np.dtype(dtype).name, lab, kind, levels, salt], len(edges) >= 1, sample={k: case[k] for k in case if k != "data"} | {"edges": len(edges)})
         run.branch(f"{method}")
         well_formed(run, case, o["G"], names, L, nsh, {"clause": "well_formed"})
+        # range predicate of the LASSO oracle (hypothesis `LassoOK` of the Lean theorems): ascending, duplicate-free, in bounds
+        for sel in o["lasso"]:
+            if any(not (0 <= c < n * L) for c in sel) or any(a >= b for a, b in zip(sel, sel[1:])):
+                run.corr_fail("lasso-range", case, "strictly ascending column ids in [0, n*max_lag)", sel, "LASSO selection outside the oracle's range predicate")
         meta.append((case, o, names))
         reqs.append(DC.model_request(base.astype(float), n, method, info, L, af, ab, nsh, o["perms"], o["lasso"], levels, salt, nan_own))
     for (case, o, names), r in zip(meta, driver.run_sharded(reqs, shards=16)):
